@@ -527,6 +527,17 @@ def check_one(pid, tier):
                 continue
             rg = fl[0]["region"]
             it = rid.split("@")[1] if "@" in rid else rid.split("#")[0]
+            base_kinds = UNITS.get(r["unit"], {}).get("loop_kinds", {})
+            now_kinds = mp.get("loop_kinds", {})
+            if it in base_kinds and it in now_kinds and base_kinds[it] != now_kinds[it]:
+                # the loop was rewritten in another form (`loop` <-> `while`/`for`): the invariants and the exit clause were written
+                # for the form on the unchanged tree and may simply not fit - a failed obligation here decides nothing
+                fpr = set()
+                for f in fl:
+                    fpr |= set(f["props"])
+                if pid in fpr or ("~" + pid) in fpr or r["unit"] in supports:
+                    undec_reasons.append("%s: the loops of %s changed form (%s -> %s); its invariants were written for the former, obligation %s cannot be decided" % (r["unit"], it, base_kinds[it], now_kinds[it], rid))
+                continue
             if it in closure_items:
                 # a closure without a contract: the verifier knows nothing about its result, so a failed obligation in this
                 # function says nothing about the property (tool limit, not an alarm)
